@@ -1686,6 +1686,11 @@ tunnel_dns(int tun_fd, int dns_fd, struct dnsfd *dns_fds, int bind_fd)
 	int read;
 	int domain_len;
 
+	/* Raw packets are handled before dns_decode() fills in the query,
+	   and their handlers store a copy of q; never let stack garbage
+	   (id, id2, fromlen2) end up in users[].q */
+	memset(&q, 0, sizeof(q));
+
 	if ((read = read_dns(dns_fd, dns_fds, tun_fd, &q)) <= 0)
 		return 0;
 
